@@ -40,9 +40,9 @@ def split_stdout(text):
     return [(n, "\n".join(b).rstrip("\n")) for n, b in blocks]
 
 
-def one_run(d, names, cfg, jobs, fix):
+def one_run(d, names, cfg, jobs, fix, extra=()):
     """returns per file: stdout block, json entry, junit lines, fixed text; plus order of outputs and exit code"""
-    args = ["-f"] + names + ["-p", str(jobs), "--json", "j.json", "--junit", "j.xml"] + (["-c", cfg] if cfg else []) + (["--fix"] if fix else [])
+    args = ["-f"] + names + ["-p", str(jobs), "--json", "j.json", "--junit", "j.xml"] + (["-c", cfg] if cfg else []) + (["--fix"] if fix else []) + list(extra)
     rc, so, se = run_cli(args, d)
     out = {"rc": rc, "stderr": se, "order": [], "files": {}}
     if "Traceback (most recent call last)" in se:
@@ -94,14 +94,17 @@ def _case(job):
     if cfg_text:
         cfg = "c.yaml"
         open(os.path.join(d, cfg), "w").write(cfg_text)
-    res = {"k": k, "srcs": srcs, "cfg": cfg_text, "problems": [], "runs": 0}
+    # every third batch also loads the repository's example directory of local rules (rules loaded per file)
+    lr = os.path.join(vlib.REPO, "tests", "vsg", "local_rules")
+    extra = ["--local_rules", lr] if (k % 3 == 2 and os.path.isdir(lr)) else []
+    res = {"k": k, "srcs": srcs, "cfg": cfg_text, "problems": [], "runs": 0, "local_rules": bool(extra)}
     try:
         for fix in (False, True):
             alone = {}
             crashed = False
             for n in names:
                 fresh()
-                o = one_run(d, [n], cfg, 1, fix)
+                o = one_run(d, [n], cfg, 1, fix, extra)
                 res["runs"] += 1
                 if "crash" in o:
                     crashed = True
@@ -119,7 +122,7 @@ def _case(job):
             for order in perms:
                 for jobs in jobs_list:
                     fresh()
-                    o = one_run(d, order, cfg, jobs, fix)
+                    o = one_run(d, order, cfg, jobs, fix, extra)
                     res["runs"] += 1
                     tag = "%s order %r -p %d" % ("--fix" if fix else "check", order, jobs)
                     if "crash" in o:
@@ -144,7 +147,7 @@ def _case(job):
                 for n, t in zip(names, texts):
                     if alone[n][0]["block"] is None:
                         continue
-                    rc, so, se = run_cli(["--stdin"] + (["-c", cfg] if cfg else []), d, stdin=t)
+                    rc, so, se = run_cli(["--stdin"] + (["-c", cfg] if cfg else []) + extra, d, stdin=t)
                     res["runs"] += 1
                     if "Traceback (most recent call last)" in se:
                         continue
@@ -225,7 +228,7 @@ def run(tier):
         for key, what in o["problems"][:2]:
             ck.violation("independence:" + key, "batch %r config %r: %s" % ([s if s in SPECIAL else os.path.relpath(s, vlib.REPO) for s in o["srcs"]], o["cfg"], what),
                          {"kind": "input", "files": [s if s in SPECIAL else os.path.relpath(s, vlib.REPO) for s in o["srcs"]], "config": o["cfg"], "problem": what})
-    ck.cov.update({"batches": len(jobs), "cli_runs": runs, "batches_with_rejected_file": len([j for j in jobs if "BAD" in j[1]]), "open_end_state_neighbours": sorted({x for j in jobs for x in j[1] if x in SPECIAL and x != "BAD"}), "batches_with_per_file_configuration": len([j for j in jobs if j[2] and "file_rules" in j[2]]),
+    ck.cov.update({"batches": len(jobs), "cli_runs": runs, "batches_with_rejected_file": len([j for j in jobs if "BAD" in j[1]]), "open_end_state_neighbours": sorted({x for j in jobs for x in j[1] if x in SPECIAL and x != "BAD"}), "batches_with_local_rules": len([o for o in res if o.get("local_rules")]), "batches_with_per_file_configuration": len([j for j in jobs if j[2] and "file_rules" in j[2]]),
                    "batches_skipped_because_vsg_crashed": len([o for o in res if o.get("crashed")])})
     ck.sample({"batch": [s if s in SPECIAL else os.path.relpath(s, vlib.REPO) for s in res[0]["srcs"]], "config": res[0]["cfg"], "runs": res[0]["runs"]})
     ck.cov["evaluations"] = runs
